@@ -230,6 +230,7 @@ func (g *Gen) genStoreHistory(prop string, maxOps int) {
 	nOps := r.Range(maxOps/4+1, maxOps)
 	// op weights per property
 	wAdd, wMerge, wCopy, wClear, wRew, wObs := 60, 8, 3, 3, 4, 10
+	wCodec := 4
 	switch prop {
 	case "C15":
 		wClear = 10
@@ -247,7 +248,7 @@ func (g *Gen) genStoreHistory(prop string, maxOps int) {
 			id = 1
 		}
 		e := sg.h[id]
-		switch r.Pick(wAdd, wMerge, wCopy, wClear, wRew, wObs) {
+		switch r.Pick(wAdd, wMerge, wCopy, wClear, wRew, wObs, wCodec) {
 		case 0:
 			i := sg.nextIndex()
 			w := sg.nextWeight()
@@ -310,6 +311,34 @@ func (g *Gen) genStoreHistory(prop string, maxOps int) {
 			}
 			g.emit("srew %d %s", id, f)
 			g.stats["op:reweight"]++
+		case 6:
+			// binary encoding / protobuf of one store merged into another (or itself)
+			o := ids[r.Intn(len(ids))]
+			src := sg.h[o]
+			if !int32Keys(src.truth) {
+				continue
+			}
+			save := e.truth.Copy()
+			arg := src.truth
+			if o == id {
+				arg = src.truth.Copy()
+			}
+			e.truth.Merge(arg)
+			if !e.truth.InEnvelope() || !varfloatOK(arg) {
+				e.truth = save
+				g.stats["envelope-refused"]++
+				continue
+			}
+			if r.Bool(60) {
+				g.emit("sencdec %d %d", o, id)
+				g.stats["op:encode-decode"]++
+			} else {
+				g.emit("sproto %d %d", o, id)
+				g.stats["op:proto"]++
+			}
+			if r.Bool(40) {
+				sg.observe(o, false)
+			}
 		default:
 			sg.observe(id, false)
 			g.stats["op:observe"]++
@@ -321,4 +350,24 @@ func (g *Gen) genStoreHistory(prop string, maxOps int) {
 	for _, id := range sg.ids() {
 		sg.observe(id, true)
 	}
+}
+
+func int32Keys(t *Truth) bool {
+	for k := range t.m {
+		if k < -(1<<31) || k > 1<<31-1 {
+			return false
+		}
+	}
+	return true
+}
+
+// varfloatOK: every weight survives the +1 / -1 transform of the varfloat codec.
+func varfloatOK(t *Truth) bool {
+	for _, v := range t.m {
+		f, exact := v.Float64()
+		if !exact || (f+1)-1 != f {
+			return false
+		}
+	}
+	return true
 }
